@@ -218,7 +218,31 @@ def check_debug(case):
 _opt = re.compile(r"^\s*(\w+)=([^;]+);$")
 _decl = re.compile(r"^\s*(\w+)\[(.*)\];$")
 _edge = re.compile(r"^\s*([^\s]+) -> ([^\s;]+);$")
-_label = re.compile(r'label="([^"]*)"')
+_label = re.compile(r'label="((?:[^"\\]|\\.)*)"')          # a DOT quoted string: \" does not end it
+_attr = r'\w+=(?:"(?:[^"\\]|\\.)*"|[^",\]\s]+)'
+_attrs = re.compile(r"^%s(?:,%s)*$" % (_attr, _attr))          # the whole attribute list of a declaration: key=value pairs, values bare or quoted
+
+
+def _fields(label):
+    out, cur, i = [], "", 0
+    while i < len(label):
+        ch = label[i]
+        if ch == "\\" and i + 1 < len(label):
+            cur += label[i:i + 2]
+            i += 2
+            continue
+        if ch == "|":
+            out.append(cur)
+            cur = ""
+        else:
+            cur += ch
+        i += 1
+    out.append(cur)
+    return out
+
+
+def _unescape(text):
+    return re.sub(r"\\(.)", r"\1", text)
 
 
 def parse_dot(text):
@@ -231,15 +255,19 @@ def parse_dot(text):
             continue
         m = _decl.match(ln)
         if m:
+            if not _attrs.match(m.group(2)):
+                raise Violation("dot:malformed-attribute-list", repr(ln))
             lab = _label.search(m.group(2))
             if lab is None:
                 raise Violation("dot:node-without-label", ln)
             ports = {}
             if "shape=record" in m.group(2):
-                for field in lab.group(1).split("|"):
-                    fm = re.match(r"^<(\w+)> (.*)$", field)
+                for field in (_fields(lab.group(1)) if lab.group(1) else []):
+                    fm = re.match(r"^<(\w+)> (.*)$", field, re.S)
                     if fm:
-                        ports[fm.group(1)] = fm.group(2)
+                        ports[fm.group(1)] = _unescape(fm.group(2))
+                    else:
+                        raise Violation("dot:record-field-without-port", "field %r of %s (a column name split by an unescaped delimiter?)" % (field, m.group(1)))
             if m.group(1) in nodes:
                 raise Violation("dot:node-declared-twice", m.group(1))
             nodes[m.group(1)] = dict(label=lab.group(1), ports=ports, record="shape=record" in m.group(2))
